@@ -39,6 +39,10 @@ func zvC07Check(r *vh.Run, cfg zvSessCfg, hist []string, t zvSessTrace) bool {
 	bClients := uint64(0)
 	if o.BState == stateNameEstablished {
 		bClients = 1
+		// ... and nothing but what it contributed: the other session's contributions stay
+		if cfg.BRRClient && !o.ContribCID {
+			v("other-sessions-cluster-contribution-removed", "the other session (a route reflector client, Established) contributes the cluster ID, but it no longer counts as contributing (this session is %s)", o.State)
+		}
 	}
 	if o.State != stateNameEstablished {
 		r.Count("not_established_states", 1)
